@@ -89,6 +89,8 @@ func c12Addr(k string) uint16 {
 		return 0xff06
 	case "tac":
 		return 0xff07
+	case "if":
+		return 0xff0f
 	}
 	return 0
 }
@@ -201,7 +203,11 @@ func (c12) Generate(r *engine.Rand, index int, tier string) *engine.Scenario {
 					add("tima", r.Byte())
 				}
 			case op < 7:
-				add("tma", r.EdgeByte())
+				if r.Chance(1, 5) {
+					add("if", r.Byte()&^0x04)
+				} else {
+					add("tma", r.EdgeByte())
+				}
 			default:
 				t := r.Byte()
 				if fast && r.Chance(2, 3) {
@@ -256,7 +262,11 @@ func (c12) Generate(r *engine.Rand, index int, tier string) *engine.Scenario {
 					ref.Tick()
 				}
 				used[tgt] = true
-				switch r.Intn(5) {
+				switch r.Intn(6) {
+				case 5:
+					// the guest stores to IF (timer bit clear) in a cycle around the overflow: a request made at
+					// the end of that very cycle is not wiped by it
+					add("if", r.Byte()&^0x04)
 				case 0:
 					add("div", 0)
 					ref.WriteDIV()
